@@ -73,6 +73,12 @@ def distribute (bd : Nat) (e : Env) : Nat :=
   if bd = 0 || !e.active then 0
   else collect bd e.raws - min e.burned (collect bd e.raws)
 
+/-- where the net amount goes: in distribute mode (`RewardPeriodDistribute`) it is what was
+    transferred to providers (the minted remainder is burnt: `Env.burned`); otherwise it stays in
+    the module account and is credited to the pools' native balances -/
+def paidOf (distributeMode : Bool) (bd : Nat) (e : Env) : Nat := if distributeMode then distribute bd e else 0
+def pooledOf (distributeMode : Bool) (bd : Nat) (e : Env) : Nat := if distributeMode then 0 else distribute bd e
+
 /-- accumulator that enters the block's distribution -/
 def accuIn (fix : Bool) (p : Period) (h accu : Nat) : Nat :=
   if fix && h == p.start then 0 else accu
